@@ -49,7 +49,13 @@ type c12Prog struct {
 	Loader  int     `json:"loader"`  // 0 entry hash, 1 manifest
 	Conc    int     `json:"conc"`    // fetch concurrency of the loads (0 = default)
 	Extra   int     `json:"extra"`   // additional undecodable blocks named next to the hostile one
+	// entry-linkkey-inner: the link lists sealed with the readers' own key are hostile themselves (a writer who
+	// holds the shared key): patches to {next, refs} before sealing, or an arbitrary value sealed instead
+	Inner    []patch `json:"inner,omitempty"`
+	InnerArb *Val    `json:"innerArb,omitempty"`
 }
+
+var innerPaths = []string{"next", "refs", "next[0]", "refs[0]", "next[1]", "next[2]", "+extra"}
 
 var entryPaths = []string{"v", "id", "key", "sig", "hash", "next", "refs", "clock", "clock.id", "clock.time", "payload", "identity", "identity.id", "identity.type", "identity.publicKey", "identity.signatures", "identity.signatures.id", "identity.signatures.publicKey", "next[0]", "refs[0]", "enc_links", "enc_links_nonce", "+extra"}
 var manifestPaths = []string{"id", "heads", "heads[0]", "+extra"}
@@ -57,7 +63,7 @@ var pbPaths = []string{"hash", "id", "payload", "next", "next[0]", "v", "clock",
 
 func genC12(t *rapid.T) c12Prog {
 	p := c12Prog{
-		Shape:  rapid.SampledFrom([]string{"entry", "entry", "entry", "entry-linkkey", "entry-linkkey", "manifest", "pb-entry", "pb-manifest", "arbitrary"}).Draw(t, "shape"),
+		Shape:  rapid.SampledFrom([]string{"entry", "entry", "entry", "entry-linkkey", "entry-linkkey", "entry-linkkey-inner", "entry-linkkey-inner", "manifest", "pb-entry", "pb-manifest", "arbitrary"}).Draw(t, "shape"),
 		Sorted: rapid.IntRange(0, 3).Draw(t, "sorted") > 0,
 		NLinks: rapid.IntRange(0, 3).Draw(t, "nlinks"),
 		Pos:    rapid.IntRange(0, 5).Draw(t, "pos"),
@@ -72,6 +78,37 @@ func genC12(t *rapid.T) c12Prog {
 		paths = append(append([]string{}, entryPaths...), "enc_links", "enc_links_nonce", "enc_links", "enc_links_nonce", "enc_links_nonce")
 	}
 	switch p.Shape {
+	case "entry-linkkey-inner":
+		if rapid.IntRange(0, 5).Draw(t, "innerArb") == 0 {
+			v := GenVal(3).Draw(t, "innerVal")
+			p.InnerArb = &v
+		} else {
+			n := rapid.IntRange(1, 2).Draw(t, "ninner")
+			for i := 0; i < n; i++ {
+				pt := patch{Path: rapid.SampledFrom(innerPaths).Draw(t, "ipath"), Act: rapid.SampledFrom([]string{"delete", "null", "replace", "replace", "samekind", "badlink", "badlink"}).Draw(t, "iact")}
+				switch {
+				case pt.Act == "badlink":
+					pt.Act = "replace"
+					pt.V = Val{K: "badlink", B: rapid.SampledFrom([][]byte{{}, {0}, {1}, {1, 2, 3}, {0, 1, 0x71, 0x12, 0x20, 1, 2}, {0, 0x12, 0x20}, {0, 1, 0x71, 0x12, 0}}).Draw(t, "b")}
+					if len(pt.Path) < 5 { // a whole list of them
+						pt.V = List(pt.V, Link(1))
+					}
+				case pt.Act == "samekind" && pt.Path != "+extra":
+					pt.Act = "replace"
+					pt.V = sameKind(pt.Path).Draw(t, "ival")
+				case pt.Act == "replace" || pt.Path == "+extra":
+					pt.Act = "replace"
+					pt.V = GenVal(2).Draw(t, "ival")
+				case pt.Act == "samekind":
+					pt.Act = "replace"
+					pt.V = GenVal(2).Draw(t, "ival")
+				}
+				p.Inner = append(p.Inner, pt)
+			}
+		}
+		if rapid.IntRange(0, 2).Draw(t, "outer") > 0 {
+			return p // the outer block is exactly what an honest writer produces
+		}
 	case "manifest", "pb-manifest":
 		paths = manifestPaths
 	case "pb-entry":
@@ -440,6 +477,28 @@ func runC12(tb ev.TB, p c12Prog) ev.Result {
 		val = baseEntryVal(hl, 0, false)
 		val.Set("enc_links", Str(hl.GetAdditionalData()[iface.KeyEncryptedLinks]))
 		val.Set("enc_links_nonce", Str(hl.GetAdditionalData()[iface.KeyEncryptedLinksNonce]))
+	case "entry-linkkey-inner":
+		hl := healthyLinkEntry(tb)
+		val = baseEntryVal(hl, 0, false)
+		inner := Map(KV{"next", List(Link(1), Link(2))}, KV{"refs", List(Link(3))})
+		if p.InnerArb != nil {
+			inner = *p.InnerArb
+		}
+		for _, pt := range p.Inner {
+			if inner.K == "map" {
+				applyPatch(&inner, pt)
+			}
+		}
+		nonce, err := base64.StdEncoding.DecodeString(hl.GetAdditionalData()[iface.KeyEncryptedLinksNonce])
+		if err != nil {
+			tb.Fatalf("harness: %v", err)
+		}
+		sealed, err := world.LinkKey(0).SealWithNonce(EncodeCBOR(inner, p.Sorted, resolver), nonce)
+		if err != nil {
+			tb.Fatalf("harness: %v", err)
+		}
+		val.Set("enc_links", Str(base64.StdEncoding.EncodeToString(sealed)))
+		val.Set("enc_links_nonce", Str(base64.StdEncoding.EncodeToString(nonce)))
 	case "pb-entry":
 		val = baseEntryVal(healthy, p.NLinks, true)
 	case "manifest", "pb-manifest":
@@ -620,7 +679,7 @@ func runC12(tb ev.TB, p c12Prog) ev.Result {
 		})
 	}
 	// the loaders of a reader that holds the link key decode the block on fetch goroutines too
-	if p.Shape == "entry-linkkey" {
+	if p.Shape == "entry-linkkey" || p.Shape == "entry-linkkey-inner" {
 		safely(tb, "NewFromEntryHash (link-key reader) over a log containing the block", func() {
 			_, _ = ipfslog.NewFromEntryHash(ctx, st.API(), world.Identity(0), head.GetHash(), &ipfslog.LogOptions{ID: "verif-log", IO: linkIO}, &ipfslog.FetchOptions{})
 		})
@@ -641,7 +700,7 @@ var _ format.Node
 
 func TestC12(t *testing.T) {
 	c := ev.Get("C12")
-	c.Rule = "structured generation: the valid CBOR map of an entry / manifest (or the legacy JSON-in-protobuf shape) with 1-3 patches, each deleting, nulling or replacing one field (top-level, nested clock/identity/signatures fields, list elements, extra fields) by a generated value of any kind (ints incl. 2^63/2^64-1, negatives, strings incl. non-hex and invalid UTF-8, bytes, bools, floats incl. NaN/Inf, undefined, lists, maps, tags, valid and malformed tag-42 links), canonical or written key order; or an arbitrary generated value. The block is stored under its true CID; every codec's DecodeRawEntry/DecodeRawJSONLog is called on it and, on success, every accessor, clock method, Verify (3 codecs), Equals, IsParent, IsValid, Copy, ToHashable, Normalize, the four comparators, re-encoding, FindHeads/FindChildren and a log built over the entry (Values, Heads, ToString, Join) — each under recover(), a panic is the violation. Then a healthy signed chain naming the block in next or refs at a generated position is loaded by entry hash or manifest and must contain every healthy entry (plus the block only if it decodes); the hostile block itself is also given to the loaders. Non-trivial = the block passes the DAG layer and is a map (decodes at the CBOR level but deviates from the schema); distinct = distinct program. Byte-level inputs: native fuzz target FuzzC12Decode (thorough tier, corpus replayed in quick)."
+	c.Rule = "structured generation: the valid CBOR map of an entry / manifest (or the legacy JSON-in-protobuf shape) with 1-3 patches, each deleting, nulling or replacing one field (top-level, nested clock/identity/signatures fields, list elements, extra fields) by a generated value of any kind (ints incl. 2^63/2^64-1, negatives, strings incl. non-hex and invalid UTF-8, bytes, bools, floats incl. NaN/Inf, undefined, lists, maps, tags, valid and malformed tag-42 links), canonical or written key order; or an arbitrary generated value; for link-key entries also hostile link lists sealed with the readers' own shared key (patched {next, refs} with malformed / empty tag-42 links, wrong kinds, or an arbitrary value) inside an otherwise honest block. The block is stored under its true CID; every codec's DecodeRawEntry/DecodeRawJSONLog is called on it and, on success, every accessor, clock method, Verify (3 codecs), Equals, IsParent, IsValid, Copy, ToHashable, Normalize, the four comparators, re-encoding, FindHeads/FindChildren and a log built over the entry (Values, Heads, ToString, Join) — each under recover(), a panic is the violation. Then a healthy signed chain naming the block in next or refs at a generated position is loaded by entry hash or manifest and must contain every healthy entry (plus the block only if it decodes); the hostile block itself is also given to the loaders. Non-trivial = the block passes the DAG layer and is a map (decodes at the CBOR level but deviates from the schema); distinct = distinct program. Byte-level inputs: native fuzz target FuzzC12Decode (thorough tier, corpus replayed in quick)."
 	c.Assumptions = []string{"a block that decodes without error counts as an entry (possibly nonsensical) and may be part of the loaded log; only undecodable blocks must be skipped", "panics on goroutines the library starts cannot be recovered in-process: the direct decode checks run first on the test goroutine, the loaders second; the driver attributes a process crash to the last case written (write-ahead file)"}
 	ev.Check(t, "C12", genC12, runC12)
 }
